@@ -21,8 +21,23 @@
   partition ∘ concatenate.  For align the theorems give well-formedness for arbitrary segments and
   boundaries ⊆ segment starts; which value each aligned segment carries is compared with the
   implementation by the harness only (said in the claim).
+
+  Float values with NaN (Model Part 4, section "float values with NaN" below): `FV` = number or NaN
+  *object*; its structural equality is Python's identity-then-`==` (dict keys, `list.index`, the
+  constructor's `unique_in_order`), `FV.cmp` is the rich comparison every `ComparableArrayWrapper`
+  delegates to (IEEE: a NaN is unordered with everything, itself included).  All theorems above are
+  for an arbitrary value type and therefore hold for `Cat FV` as they stand (indexing, add without
+  a value, add_unmatched, align, partition, remove_repeats never compare values).  Proved in
+  addition: the six comparison operators against the IEEE relation per dump (`c11_cmp_nan`, no
+  assumption on the series), `remove` (a NaN matches no dump), `add` with any value (per-dump
+  effect as documented, structure well-formed).  Where the code compares through fresh wrappers a
+  NaN object never equals itself: `add` of a NaN that is already a unique value and
+  `concatenate_categorical` of parts that share a NaN enter the same object a second time into the
+  unique values (`c11_add_nan_wf_full_is_false`, `c11_concat_nan_full_is_false`; known finding
+  C11-nan-entered-twice); the partial theorems say exactly when distinctness survives.
 -/
 import KatdalModel.Lemmas.CatRemove
+import KatdalModel.Lemmas.CatNaN
 open Np Categorical
 
 namespace C11
@@ -201,6 +216,113 @@ theorem c11_reachable_wf (c c' : Cat V) (h : c.WF) (r : Reach c c') : c'.WF := b
       simp only [Except.ok.injEq] at hc
       subst hc; exact hxp.1
 
+/-! ### float values with NaN -/
+
+/-- **Comparing a float series with a value gives the same answers as the explicit per-dump list
+    compared element by element under IEEE 754** — for `==`, `!=`, `<`, `>`, `<=`, `>=`, for every
+    series (NaN among the values or not, well-formed or not) and every operand (NaN or not).
+    Mirror side: `_bool_per_dump([wrapper <op> other for wrapper in _comparable_values])` with the
+    wrapper's operators (`FV.cmp`); spec side: the relation less / equal / greater / unordered
+    (`FV.order`) read through the operator (`CmpOp.holds`: on an unordered pair only `!=` holds),
+    `none` for the dumps before the first event. -/
+theorem c11_cmp_nan (c : Cat FV) (op : CmpOp) (other : FV) :
+    c.cmpOp op other = specCmp c.perDump op other :=
+  cmpOp_spec c op other
+
+/-- the same for the coded series the driver works on (codes decoded by `FV.ofCode`) -/
+theorem c11_cmp_nan_coded (c : Cat Nat) (op : CmpOp) (other : FV) :
+    c.cmpPerDump (fun x => FV.cmp op (FV.ofCode x) other) =
+      specCmp (c.perDump.map (fun o => o.map FV.ofCode)) op other := by
+  rw [← cmpOp_mapV, cmpOp_spec, perDump_mapV]
+
+/-- **every comparison with NaN is False and `!=` is True**: at a dump that carries a NaN, or for a
+    NaN operand, whatever the dump carries -/
+theorem c11_cmp_nan_unordered (c : Cat FV) (op : CmpOp) (other : FV) (d : Nat) (x : FV)
+    (hd : c.perDump[d]? = some (some x)) (hnan : x.isNaN = true ∨ other.isNaN = true) :
+    (c.cmpOp op other)[d]? = some (some (decide (op = .ne))) := by
+  rw [cmpOp_spec]
+  simp only [specCmp, List.getElem?_map, hd, Option.map_some]
+  rw [← FV.cmp_eq_holds, FV.cmp_unordered op x other hnan]
+
+/-- `<=` may be computed as `not >` (and `>=` as `not <`) on numbers, and on no unordered pair:
+    there the negation answers True where IEEE says False -/
+theorem c11_le_is_not_not_gt :
+    (∀ a b : Nat, FV.cmp .le (.num a) (.num b) = !(FV.cmp .gt (.num a) (.num b))) ∧
+    (∀ a b : Nat, FV.cmp .ge (.num a) (.num b) = !(FV.cmp .lt (.num a) (.num b))) ∧
+    (∀ x y : FV, x.isNaN = true ∨ y.isNaN = true →
+      FV.cmp .le x y ≠ !(FV.cmp .gt x y) ∧ FV.cmp .ge x y ≠ !(FV.cmp .lt x y)) :=
+  ⟨FV.le_eq_not_gt_num, FV.ge_eq_not_lt_num,
+   fun x y h => ⟨FV.le_ne_not_gt_unordered x y h, FV.ge_ne_not_lt_unordered x y h⟩⟩
+
+/-- `_comparable_values.index(value)` (used by `add` and `remove`) finds the first unique value
+    that compares `==` to the value under IEEE: nothing for a NaN -/
+theorem c11_index_ieee (l : List FV) (v : FV) :
+    indexOfN? FV.isNaN l v =
+      (if l.findIdx (fun x => FV.cmp .eq x v) < l.length then some (l.findIdx (fun x => FV.cmp .eq x v)) else none) :=
+  indexOfN_ieee l v
+
+/-- **remove(value) on a float series**: the dumps that compare `==` to the value take the value
+    of the last earlier dump that does not (`fillPrevP`); for a NaN no dump does and nothing
+    changes; the series stays well-formed with the same number of dumps -/
+theorem c11_remove_nan (c : Cat FV) (h : c.WF) (v : FV) (c' : Cat FV) (hrem : c.removeN FV.isNaN v = .ok c') :
+    c'.perDump = fillPrevP (eqDump v) none c.perDump ∧ c'.WF ∧ c'.numDumps = c.numDumps ∧
+      (v.isNaN = true → c' = c) := by
+  obtain ⟨a, b, d⟩ := removeN_spec c h v c' hrem
+  refine ⟨a, b, d, ?_⟩
+  intro hv
+  rw [removeN_nan FV.isNaN c v hv] at hrem
+  exact (Except.ok.inj hrem).symm
+
+/-- **add(event, value) with any value, NaN included** (already among the unique values or not):
+    the per-dump list is overridden on `[event, next boundary)` and unchanged elsewhere; event
+    boundaries stay strictly increasing and end at the number of dumps; indices stay inside the
+    unique values -/
+theorem c11_add_nan (nan : V → Bool) (c : Cat V) (h : c.WF) (e : Nat) (v : V) (he : e < c.numDumps) (c' : Cat V)
+    (hadd : c.addN nan e (some v) = .ok c') :
+    c'.perDump = c.perDump.take e ++
+      List.replicate ((c.ev.filter (fun x => decide (e < x))).headD 0 - e) (some v) ++
+      c.perDump.drop ((c.ev.filter (fun x => decide (e < x))).headD 0) ∧
+    c'.WFi ∧ c'.numDumps = c.numDumps :=
+  addN_spec nan c h e v he c' hadd
+
+/-- the unique values stay pairwise distinct under `add` unless the value is a NaN that is among
+    them already (partial: see `c11_add_nan_wf_full_is_false`) -/
+theorem c11_add_nan_wf_partial (nan : V → Bool) (c : Cat V) (h : c.WF) (e : Nat) (value : Option V)
+    (he : e < c.numDumps) (hv : ∀ v, value = some v → nan v = false ∨ v ∉ c.uniq) (c' : Cat V)
+    (hadd : c.addN nan e value = .ok c') : c'.WF ∧ c'.numDumps = c.numDumps :=
+  addN_wf nan c h e value he hv c' hadd
+
+/-- in the remaining case they never do: a NaN that is a unique value already is entered again -/
+theorem c11_add_nan_duplicates (nan : V → Bool) (c : Cat V) (e : Nat) (v : V) (hn : nan v = true)
+    (hv : v ∈ c.uniq) (c' : Cat V) (hadd : c.addN nan e (some v) = .ok c') : ¬ c'.uniq.Nodup :=
+  addN_dup nan c e v hn hv c' hadd
+
+/-- witness: series NaN, 1.0 on events 0, 2, 4; `add(3, that NaN)` -/
+theorem c11_add_nan_wf_full_is_false :
+    ∃ (c c' : Cat FV), c.uniq.Nodup ∧ c.addN FV.isNaN 3 (some (.nan 0)) = .ok c' ∧ ¬ c'.uniq.Nodup :=
+  ⟨{ uniq := [.nan 0, .num 1], idx := [0, 1], ev := [0, 2, 4] },
+   { uniq := [.nan 0, .num 1, .nan 0], idx := [0, 1, 2], ev := [0, 2, 3, 4] }, by decide, by decide, by decide⟩
+
+/-- **concatenate_categorical of parts without NaN among their unique values** is the
+    concatenation of the per-dump lists, well-formed (partial: see `c11_concat_nan_full_is_false`) -/
+theorem c11_concat_nan_partial (nan : V → Bool) (parts : List (Cat V)) (hparts : ∀ p ∈ parts, p.Part)
+    (hne : parts ≠ []) (rep : Bool) (hnan : ∀ p ∈ parts, ∀ x ∈ p.uniq, nan x = false) :
+    ∃ c, concatenateN nan parts rep = .ok c ∧ c.Part ∧
+      c.perDump = (parts.map Cat.perDump).flatten ∧ c.numDumps = (parts.map Cat.numDumps).sum := by
+  rw [concatenateN_eq nan parts rep hnan]
+  exact concat_spec parts hparts hne rep
+
+/-- witness: the series "NaN on dumps 0..3" partitioned at 0, 2, 4 and concatenated again has the
+    NaN object twice among its unique values (and two events where one was), although the per-dump
+    list is the original one -/
+theorem c11_concat_nan_full_is_false :
+    ∃ (c c' : Cat FV) (parts : List (Cat FV)), c.WF ∧ c.partition [0, 2, 4] = .ok parts ∧
+      concatenateN FV.isNaN parts false = .ok c' ∧ ¬ c'.uniq.Nodup ∧ c'.perDump = c.perDump ∧ c'.ev ≠ c.ev :=
+  ⟨{ uniq := [.nan 0], idx := [0], ev := [0, 4] },
+   { uniq := [.nan 0, .nan 0], idx := [0, 1], ev := [0, 2, 4] },
+   [{ uniq := [.nan 0], idx := [0], ev := [0, 2] }, { uniq := [.nan 0], idx := [0], ev := [0, 2] }],
+   ⟨by decide, by decide, by decide, by decide⟩, by decide, by decide, by decide, by decide, by decide⟩
+
 /-! ### Non-vacuity -/
 
 -- values 3,4,3,5 on events 0,2,5,6,9: unique values in order of appearance, per-dump list
@@ -228,5 +350,31 @@ example : ((Cat.new [3, 4, 3, 5] [0, 2, 5, 6, 9]).remove 3).map Cat.perDump =
 -- align moves 2 -> 3, 5 and 6 -> 6 (only the last event landing on 6 is kept)
 example : ((Cat.new [3, 4, 3, 5] [0, 2, 5, 6, 9]).align [0, 3, 6, 9]).map (fun c => (c.ev, c.perDump)) =
     .ok ([0, 3, 6, 9], [some 3, some 3, some 3, some 4, some 4, some 4, some 5, some 5, some 5]) := by decide
+
+-- float series NaN(object 0), 1.0, 2.5, NaN(object 1) on events 0,2,4,5,7; operand 1.0 = `num 1`
+example : (Cat.new [FV.nan 0, .num 1, .num 2, .nan 1] [0, 2, 4, 5, 7]).cmpOp .le (.num 1) =
+    [some false, some false, some true, some true, some false, some false, some false] := by decide
+example : (Cat.new [FV.nan 0, .num 1, .num 2, .nan 1] [0, 2, 4, 5, 7]).cmpOp .ge (.num 1) =
+    [some false, some false, some true, some true, some true, some false, some false] := by decide
+example : (Cat.new [FV.nan 0, .num 1, .num 2, .nan 1] [0, 2, 4, 5, 7]).cmpOp .ne (.nan 0) =
+    List.replicate 7 (some true) := by decide
+example : (Cat.new [FV.nan 0, .num 1, .num 2, .nan 1] [0, 2, 4, 5, 7]).cmpOp .eq (.nan 0) =
+    List.replicate 7 (some false) := by decide
+example : specCmp [none, some (.nan 0), some (.num 1)] .ge (.num 1) = [none, some false, some true] := by decide
+-- the same NaN object twice is one unique value, another NaN object is another
+example : Cat.new [FV.nan 0, .num 1, .nan 0, .nan 1] [0, 2, 4, 5, 7] =
+    { uniq := [.nan 0, .num 1, .nan 1], idx := [0, 1, 0, 2], ev := [0, 2, 4, 5, 7] } := by decide
+-- indexing a series with NaN, removing a NaN (nothing happens) and a number
+example : (Cat.new [FV.nan 0, .num 1, .nan 0] [0, 2, 4, 6]).getitem (.list [1, 5, 3]) =
+    .ok (.many [.nan 0, .nan 0, .num 1]) := by decide
+example : (Cat.new [FV.nan 0, .num 1, .nan 0] [0, 2, 4, 6]).removeN FV.isNaN (.nan 0) =
+    .ok (Cat.new [FV.nan 0, .num 1, .nan 0] [0, 2, 4, 6]) := by decide
+example : ((Cat.new [FV.nan 0, .num 1, .nan 0] [0, 2, 4, 6]).removeN FV.isNaN (.num 1)).map Cat.perDump =
+    .ok (List.replicate 6 (some (.nan 0))) := by decide
+-- partition at 0,3,6 and NaN-aware concatenation: per-dump list unchanged, the NaN object twice
+example : (do let ps ← (Cat.new [FV.nan 0, .num 1, .nan 0] [0, 2, 4, 6]).partition [0, 3, 6]
+              concatenateN FV.isNaN ps false) =
+    .ok { uniq := [.nan 0, .num 1, .nan 0], idx := [0, 1, 2], ev := [0, 2, 4, 6] } := by decide
+example : FV.ofCode 4 = .num 2 ∧ FV.ofCode 5 = .nan 2 := by decide
 
 end C11
